@@ -27,9 +27,13 @@ _c17_prepare() {
   flock -w 3600 9 || { echo "prepare: could not lock $C17_LOCK"; return 1; }
   mkdir -p "$C17_FP" || return 1
   rsync -a --delete --exclude .git "$C17_SRC"/ "$C17_FP"/ || return 1
-  grep -q 'gofail: var mpAfterSend' "$C17_FP/pkg/p2p/message_protocol.go" || { echo "prepare: failpoint comments not found in $C17_SRC/pkg/p2p/message_protocol.go"; return 1; }
-  "$VERIF_ROOT/bin/gofail" enable "$C17_FP/pkg/p2p" || return 1
-  grep -q '__fp_mpAfterSend' "$C17_FP/pkg/p2p/message_protocol.go" || { echo "prepare: gofail enable did not rewrite message_protocol.go"; return 1; }
+  # if the comment failpoints were edited away the check still runs (cases that rely on a
+  # failpoint which never fires are inconclusive, the natural-schedule streams still decide)
+  if grep -q 'gofail: var' "$C17_FP/pkg/p2p/message_protocol.go"; then
+    "$VERIF_ROOT/bin/gofail" enable "$C17_FP/pkg/p2p" || return 1
+  else
+    echo "prepare: no gofail comment failpoints in $C17_SRC/pkg/p2p/message_protocol.go - running without them"
+  fi
   if [ -n "${VERIF_REPO:-}" ]; then
     # ./check already chose bin/alt-<hash> for this scratch repository; keep its BIN
     :
